@@ -936,6 +936,65 @@ def explore(ctx, b, w, table, required, n_extra):
         silent_denials(False)
     base_snap[0] = snapshot(b)
 
+    # ================= refusals raised from inside a command body (errorNoCapability(..., Raise=True) call sites) =================
+    # metamorphic oracle: a call that is refused with a no-capability error under the shipped message must, with the
+    # message configured away, still be refused (nothing changes, nothing is said): the refusal is a raise, not a text
+    try:
+        nn = int(wire.run_driver(PROPERTY, ['nnocap'])[0])
+        sites = [wire.dec(o.split('\t')[0]) for o in wire.run_driver(PROPERTY, ['nocapsite\t%d' % i2 for i2 in range(nn)])]
+    except Exception:
+        sites = []
+    guard_cmds = []
+    for site in sites:
+        mm = re.match(r'plugins/(\w+)/plugin\.py:(.*)$', site)
+        if not mm or mm.group(1) not in have:
+            continue
+        plug = mm.group(1); fn = mm.group(2).split('.')[-1]
+        own = [k2 for k2 in sorted(loaded) if k2[0] == plug]
+        hit = [k2 for k2 in own if k2[1][-1] == fn]
+        for k2 in (hit or own):
+            if k2 not in guard_cmds and k2[0] not in ('Config', 'Owner', 'VtGate'):
+                guard_cmds.append(k2)
+    if not ctx.thorough:
+        guard_cmds = [k2 for n_, k2 in enumerate(guard_cmds) if k2[1][-1] in ('part', 'kban', 'iban', 'voice', 'add', 'remove', 'lock') or (n_ + ctx.seed) % 3 == 0]
+    refused_normally = []
+    GV = [[], [CHAN], [CHAN, 'foo'], ['foo', 'bar']]
+    def guard_call(plugin, path, pargs, who, tgt, variant):
+        text, cmd, args = command_text(plugin, path, pargs, 'direct', False)
+        try:
+            rc, rcbs = route(cmd + args)
+            if not (len(rcbs) == 1 and rcbs[0].name() == plugin and list(rc) == cmd):
+                text, cmd, args = command_text(plugin, path, pargs, 'direct', True)
+        except Exception:
+            return None
+        full = ('@' + text) if tgt == CHAN else text
+        Obs.execute = None
+        before = snapshot(b)
+        out = deliver(b, ROLES[who], tgt, full)
+        changed = [k2 for k2 in snap_diff(before, snapshot(b)) if k2 != 'files']
+        return full, classify(out), changed, (plugin, path) in Obs.bodies
+    for (plugin, path) in guard_cmds:
+        for vi, pargs in enumerate(GV):
+            for who, tgt in (('plain', CHAN), ('unreg', NICK)):
+                r1 = guard_call(plugin, path, pargs, who, tgt, None)
+                if r1 and r1[1][0] == 'nocap' and not r1[2]:
+                    refused_normally.append((plugin, path, pargs, who, tgt, r1[1][1], r1[3]))
+    silent_denials(True)
+    try:
+        for (plugin, path, pargs, who, tgt, capname, in_body) in refused_normally:
+            r2 = guard_call(plugin, path, pargs, who, tgt, 'silent-denial')
+            if r2 is None:
+                continue
+            full, cls, changed, ran = r2
+            ok = not changed and cls[0] in ('silent', 'nocap', 'error', 'help')
+            cases.append(Case({'op': 'bodyguard', 'plugin': plugin, 'path': list(path), 'prefix': ROLES[who], 'target': tgt, 'text': full, 'variant': 'silent-denial'},
+                              oracle_ok=ok, kind='bodyguard', tags=['bodyguard', 'variant:silent-denial'] + (['bodyguard:in-body'] if in_body else []),
+                              oracle_msg='' if ok else '[configuration silent-denial] %s calls %s %s as %r: refused for lacking %s under the shipped message, but with '
+                                         'supybot.replies.noCapability = "" state changed=%r, reply=%r' % (ROLES[who], plugin, ' '.join(path), full, capname, changed, cls)))
+    finally:
+        silent_denials(False)
+    base_snap[0] = snapshot(b)
+
     # ================= configuration writes =================
     registry = b.registry
     cfgmod = sys.modules.get('Config.plugin') or sys.modules.get('supybot.plugins.Config.plugin')
